@@ -366,8 +366,10 @@ def conclude(run, proof_ok, pinfo, corr, oracle_violations, deeper_search=None, 
     if "coqchk" in pinfo:
         cov["coqchk"] = pinfo["coqchk"]
     reported = 0
-    for v in oracle_violations[:max_report]:
-        if run.violation(v["what"], v["replay"]):
+    for v in oracle_violations:
+        if reported >= max_report:
+            break
+        if run.violation(v["what"], v["replay"]):    # False when it matches an open known finding
             reported += 1
     broken = []
     if not proof_ok:
@@ -377,7 +379,9 @@ def conclude(run, proof_ok, pinfo, corr, oracle_violations, deeper_search=None, 
             broken.append("correspondence %s: %d of %d cases disagree" % (c["name"], len(c["bad"]), c["cases"]))
     if broken and not reported:
         found = deeper_search() if deeper_search else []
-        for v in found[:max_report]:
+        for v in found:
+            if reported >= max_report:
+                break
             if run.violation(v["what"], v["replay"]):
                 reported += 1
     if broken and not reported:
